@@ -388,19 +388,34 @@ func ruleOpenFlagFlow(c *Ctx) {
 					continue
 				}
 				arg := call.Call.Args[len(call.Call.Args)-1]
-				// must be a phi of (false, load of options.openBound)
-				if phi, ok := arg.(*ssa.Phi); ok {
-					for _, e := range phi.Edges {
-						if ld, ok := e.(*ssa.UnOp); ok && ld.Op == token.MUL {
-							if fa, ok := ld.X.(*ssa.FieldAddr); ok {
-								st := fa.X.Type().Underlying().(*types.Pointer).Elem().Underlying().(*types.Struct)
-								if st.Field(fa.Field).Type().Underlying().(*types.Basic) != nil {
-									okFlow = true
-								}
+				// backward slice of the argument: it must depend on a bool field of the options struct
+				seen := map[ssa.Value]bool{}
+				var walk func(v ssa.Value, d int)
+				walk = func(v ssa.Value, d int) {
+					if v == nil || seen[v] || d > 8 {
+						return
+					}
+					seen[v] = true
+					if fa, ok := v.(*ssa.FieldAddr); ok {
+						st := fa.X.Type().Underlying().(*types.Pointer).Elem().Underlying().(*types.Struct)
+						if bt, ok := st.Field(fa.Field).Type().Underlying().(*types.Basic); ok && bt.Kind() == types.Bool {
+							okFlow = true
+						}
+					}
+					if f, ok := v.(*ssa.Field); ok {
+						if bt, ok := f.Type().Underlying().(*types.Basic); ok && bt.Kind() == types.Bool {
+							okFlow = true
+						}
+					}
+					if ins, ok := v.(ssa.Instruction); ok {
+						for _, op := range ins.Operands(nil) {
+							if *op != nil {
+								walk(*op, d+1)
 							}
 						}
 					}
 				}
+				walk(arg, 0)
 			}
 		}
 		if okFlow {
